@@ -21,6 +21,9 @@ def family(rng):
             body.append(['sleep', rng.choice([0, 0, F(1, 2), 1, 1, 2, 3])])
         if rng.random() < 0.3:
             body.append(['log', 10 + i])
+        if rng.random() < 0.12:
+            # a body run that starts a whole simulation of its own (`usim.run(...)` inside the body: takes no time of the outer clock)
+            body.insert(rng.randrange(len(body) + 1), ['nestedrun', rng.choice([0, 5, 100]), ['prog', ['sleep', rng.choice([1, 3])], ['log', 77]]])
         stmt = [kind, period, rng.randint(1, 5)] + body
         if period >= 0 and rng.random() < 0.2:
             # the ticker object exists for a while before its loop begins (handed to a worker, kept in a variable): the grid starts
